@@ -231,6 +231,11 @@ func (c *Ctx) qfQueryK(o Obl, consts int) string {
 	for k := 0; k < consts; k++ {
 		tuples = append(tuples, tuple{[]string{i64(int64(k))}, []string{BV64}})
 	}
+	// ground array indices of the (skolemised) goal that mention a goal skolem
+	var goalIdx []string
+	if len(skDecls) > 0 {
+		goalIdx = selectIndices(cond, "sk_")
+	}
 	// --- hypotheses ---
 	var sb strings.Builder
 	sb.WriteString(prelude)
@@ -261,6 +266,23 @@ func (c *Ctx) qfQueryK(o Obl, consts int) string {
 			}
 			f := byFull[full]
 			var insts []string
+			// E-matching on array indices: the body mentions (select A (bvadd X k)) for its bound index k, the goal
+			// mentions (select A' G) with a goal skolem inside G: instantiate k := G - X (shifted views of one array)
+			if len(f.syms) == 1 && f.sorts[0] == BV64 && len(goalIdx) > 0 {
+				seen := map[string]bool{}
+				for _, x := range indexOffsets(f.body, f.syms[0]) {
+					for _, g := range goalIdx {
+						inst := g
+						if x != "" {
+							inst = "(bvsub " + g + " " + x + ")"
+						}
+						if !seen[inst] && len(seen) < 24 {
+							seen[inst] = true
+							insts = append(insts, substSyms(f.body, f.syms, []string{inst}))
+						}
+					}
+				}
+			}
 			for _, t := range tuples {
 				if len(t.vals) != len(f.syms) {
 					continue
@@ -441,4 +463,62 @@ func (c *Ctx) slicedQuery(o Obl, base string) string {
 	}
 	sb.WriteString("(assert " + o.Reach + ")\n(assert (not " + o.Cond + "))\n(check-sat)\n")
 	return sb.String()
+}
+
+// selectIndices lists the index terms of (select A I) subterms of f whose I mentions a symbol with the given prefix.
+func selectIndices(f, pfx string) []string {
+	var out []string
+	seen := map[string]bool{}
+	for i := 0; i+8 < len(f); i++ {
+		if !strings.HasPrefix(f[i:], "(select ") {
+			continue
+		}
+		kids, _ := sexprChildren(f, i)
+		if len(kids) != 3 {
+			continue
+		}
+		idx := f[kids[2][0]:kids[2][1]]
+		if strings.Contains(idx, pfx) && !seen[idx] && len(idx) < 400 {
+			seen[idx] = true
+			out = append(out, idx)
+		}
+	}
+	return out
+}
+
+// indexOffsets: for each (select A I) in body where I is the bound symbol k itself or (bvadd X k) / (bvadd k X) with X free of
+// k, the offset X ("" for a bare k).
+func indexOffsets(body, k string) []string {
+	var out []string
+	seen := map[string]bool{}
+	hasK := func(t string) bool { return substSyms(t, []string{k}, []string{"\x00"}) != t }
+	for i := 0; i+8 < len(body); i++ {
+		if !strings.HasPrefix(body[i:], "(select ") {
+			continue
+		}
+		kids, _ := sexprChildren(body, i)
+		if len(kids) != 3 {
+			continue
+		}
+		idx := body[kids[2][0]:kids[2][1]]
+		x, ok := "", false
+		if idx == k {
+			ok = true
+		} else if strings.HasPrefix(idx, "(bvadd ") {
+			ks, _ := sexprChildren(idx, 0)
+			if len(ks) == 3 {
+				a, b := idx[ks[1][0]:ks[1][1]], idx[ks[2][0]:ks[2][1]]
+				if b == k && !hasK(a) {
+					x, ok = a, true
+				} else if a == k && !hasK(b) {
+					x, ok = b, true
+				}
+			}
+		}
+		if ok && !seen[x] {
+			seen[x] = true
+			out = append(out, x)
+		}
+	}
+	return out
 }
